@@ -445,7 +445,7 @@ def gen_impl(rng, allow_err=False):
         items.insert(rng.randrange(len(items) + 1), rng.choice(
             ["const K: i32 = 1;", "type X = i32;", "fn bodiless(d: &impl A);", "mm!{}", "pub const Q: fn() = || {};"]))
     u = "unsafe " if rng.random() < 0.04 else ""
-    tp = rng.choice(["FooImpl", "crate::FooImpl", "super::TheImpl", "FooImpl<i32>"])
+    tp = rng.choice(["FooImpl", "crate::FooImpl", "super::TheImpl", "FooImpl<i32>", "::ext::FooImpl", "self::FooImpl", "a::b::TheImpl", "::ext::a::TheImpl"])
     st = rng.choice(["MyType", "crate::MyType", "G<i32>", "(i32, u8)", "&'static MyType", "[u8; 2]"])
     attrs = ""
     for _ in range(rng.choice([0, 0, 1])):
